@@ -16,7 +16,7 @@
    a state is the fairness of the Go scheduler plus the progress theorems of C06. *)
 From Coq Require Import List ZArith.
 From Golem Require Import Base.Lists Pipe.Pool Pipe.Stages Pipe.PoolSteps Pipe.PoolLive Pipe.PoolSeq
-     Pipe.PoolStages Pipe.PoolStages2 Pipe.PoolExamples.
+     Pipe.PoolStages Pipe.PoolStages2 Pipe.PoolGen Pipe.PoolExamples.
 Import ListNotations.
 Open Scope Z_scope.
 
@@ -133,6 +133,19 @@ Theorem C05_fold_complete : forall (combine : Z -> Z -> Z) (empty : Z) (icaps oc
   delivered s 0 = [fold_left combine (sent s 0) empty] /\ wc (ws s 0) = WDone /\ cclosed (outs s 0) = true.
 Proof. exact fold_complete. Qed.
 Print Assumptions C05_fold_complete.
+
+(* Seq / ToSeq: identity - the values received from pipe.Seq(xs...) until it closes are exactly xs *)
+Theorem C05_seq_toseq_prefix : forall (xs : list Z) (ocaps : list nat) (s : state),
+  reachable (seqgen_cfg xs ocaps) s -> prefix (delivered s 0) xs.
+Proof. exact seqgen_prefix. Qed.
+Print Assumptions C05_seq_toseq_prefix.
+
+Theorem C05_seq_toseq_identity : forall (xs : list Z) (ocaps : list nat) (s : state),
+  let c := seqgen_cfg xs ocaps in
+  reachable c s -> cancelled s = false -> quiescent c s -> no_receive c s ->
+  delivered s 0 = xs /\ wc (ws s 0) = WDone /\ cclosed (outs s 0) = true.
+Proof. exact seqgen_identity. Qed.
+Print Assumptions C05_seq_toseq_identity.
 
 (* non-vacuity: a concrete run of Map reaches a state satisfying every hypothesis of _complete *)
 Theorem C05_example :
